@@ -43,21 +43,13 @@ func (a *c05) inLocation1(v ssa.Value, memo map[ssa.Value]int, helpers map[*ssa.
 		return a.inLocation(x.X, memo, helpers)
 	case *ssa.UnOp:
 		if x.Op == token.MUL {
-			if cell, ok := x.X.(*ssa.Alloc); ok {
-				n := 0
-				for _, r := range refs(cell) {
-					switch s := r.(type) {
-					case *ssa.Store:
-						if s.Addr != cell || !a.inLocation(s.Val, memo, helpers) {
-							return false
-						}
-						n++
-					case *ssa.UnOp, *ssa.DebugRef:
-					default:
+			if vals := c05LocStores(x.X); len(vals) > 0 {
+				for _, sv := range vals {
+					if !a.inLocation(sv, memo, helpers) {
 						return false
 					}
 				}
-				return n > 0
+				return true
 			}
 		}
 		return false
@@ -69,20 +61,19 @@ func (a *c05) inLocation1(v ssa.Value, memo map[ssa.Value]int, helpers map[*ssa.
 			_, ok := c05LoadOf(x.Call.Args[1], a.fLocation)
 			return ok
 		}
-		if cal := staticCallee(x); cal != nil && a.p.funcSet[cal] && cal.Signature.Results().Len() == 1 {
-			n, ok := 0, true
-			allInstrs(cal, func(in ssa.Instruction) {
-				if ret, isRet := in.(*ssa.Return); isRet && len(ret.Results) == 1 {
-					n++
-					if !a.inLocation(ret.Results[0], memo, helpers) {
+		if x.Call.Signature().Results().Len() == 1 {
+			if rets := a.returnsOf(x, 0); len(rets) > 0 {
+				ok := true
+				for _, rv := range rets {
+					if !a.inLocation(rv, memo, helpers) {
 						ok = false
 					}
 				}
-			})
-			if n > 0 {
-				helpers[cal] = ok
+				for _, cal := range a.calleesOf(x) {
+					helpers[cal] = ok
+				}
+				return ok
 			}
-			return ok && n > 0
 		}
 		return false
 	case *ssa.Parameter:
